@@ -197,12 +197,6 @@ def check(payload):
         if isinstance(e, KeyboardInterrupt):
             raise
         key = "reader-raises:" + type(e).__name__
-        if form == "fixed" and isinstance(e, SystemExit):
-            from .c05 import predicates
-
-            pk = predicates(text)
-            if pk:
-                key = pk[0]
         return {"violations": [viol(key, str(e)[:200], shrunk={"source": text})],
                 "digests": [], "monitors": mons, "tally": tally}
     mons["items_compared"] += len(got)
@@ -212,11 +206,6 @@ def check(payload):
     d = compare_items([g for g in got if not blank(g)], [e for e in exp if not blank(e)])
     if d:
         key = d[0] + ":" + form
-        if form == "fixed" and d[0] in ("line-text", "construct-name"):
-            from .c05 import name_split
-
-            if name_split(P, text, info):
-                key = "construct-name-split-across-fixed-continuation"
         viols.append(viol(key, "(%s, ignore_comments=%s) %s" % (form, ic, d[1]), shrunk={"source": text}))
     w = walks(text, form, ic, got, [payload["layout_seed"] + k for k in range(3)])
     mons["pushback_walks"] += 3
